@@ -1517,14 +1517,16 @@ theorem decideReplenish_vals {h : Host} {pool : Bool} {cid : Nat} {accounts : Li
   obtain ⟨cs, b', rsig, hc, hr, hs, hdup, hv, hb, hv2, ha, he⟩ := decideReplenish_eff rfl hne
   have hle := decideReplenish_total_le rfl hne
   subst hs
+  have hlen : ¬ maxAccountBatch < accounts.length := by
+    intro hx; apply hne; simp [decideReplenish, hx, reject]
   have hvalid : replenishValid cid accounts target chal = true := by
     by_cases hx : replenishValid cid accounts target chal = true
     · exact hx
-    · exfalso; apply hne; simp [decideReplenish, hx, reject]
+    · exfalso; apply hne; simp [decideReplenish, hlen, hx, reject]
   have hnz : ¬ depositTotal (replenishDeposits (if pool then poolBal h.pools else h.accounts) target accounts) = 0 := by
-    intro hz; apply hne; simp [decideReplenish, hvalid, hdup, lockForRevision, hc, hr, hv, hz]
+    intro hz; apply hne; simp [decideReplenish, hlen, hvalid, hdup, lockForRevision, hc, hr, hv, hz]
   have hle' : ¬ maxCurrency < depositTotal (replenishDeposits (if pool then poolBal h.pools else h.accounts) target accounts) := by omega
-  simp [decideReplenish, hvalid, hdup, lockForRevision, hc, hr, hv, hnz, hle', hb, hv2, ha]
+  simp [decideReplenish, hlen, hvalid, hdup, lockForRevision, hc, hr, hv, hnz, hle', hb, hv2, ha]
 
 /-! ## a failing sector store -/
 
